@@ -178,11 +178,17 @@ class C08(Property):
                 if not self._close(impl['scaled'][kind][k], v):
                     return {'what': 'physical %s differ between scaled and unscaled model' % kind,
                             'var': k, 'scaled': impl['scaled'][kind][k], 'plain': v}
-        if not self._close(impl['scaled']['J'], impl['plain']['J']):
+        # derivative comparisons: what the linear solves can deliver is bounded by cond x eps of the
+        # (physical) linearised system; numerically singular systems are not compared
+        cond = gm.system_cond(md, ('c08', case['gen_seed']))
+        if cond > 1e11:
+            return None
+        jt = max(RTOL, 1e-14 * cond)
+        if not self._close(impl['scaled']['J'], impl['plain']['J'], jt):
             return {'what': 'total derivatives differ between scaled and unscaled model',
                     'scaled': impl['scaled']['J'], 'plain': impl['plain']['J']}
         J = [[float(x) for x in r] for r in gm.exact_totals_linsolve(md, voi)]
-        if not self._close(impl['scaled']['J'], J):
+        if not self._close(impl['scaled']['J'], J, jt):
             return {'what': 'total derivatives of the scaled model differ from the exact derivative',
                     'scaled': impl['scaled']['J'], 'exact': J}
         return None
